@@ -23,7 +23,7 @@ func C06() *engine.Scenario {
 		Level:      "fault_enumeration",
 		MapSched:   true,
 		Setup:      loadKeys,
-		Rule:       "Uploader's signing stage. Each run: a step tree mixing command/wait/input/trigger/group/unknown steps, groups nested to depth 4, 0-2 unknown steps wherever the Author's kind choice puts them (any position, any depth), pipeline env x step env overlaps, all key kinds; the real SignSteps runs with every map range in sched-tape order. Fault (S5): on the crypto.Signer path the signer returns an error on its k-th call, k sched-tape-chosen over the whole tree. Oracle: unknown step anywhere => error; injected signer error => error; on nil error every command step at every depth carries a signature that verifies, names the key's algorithm, and whose signed_fields is exactly sort(5 mandatory + env::N for every pipeline env N not in the step's env); in all cases a deep dump (go-spew, unexported fields included) of the tree with signatures blanked and of the caller's env map is identical before and after. Fingerprint = (tree shape: kinds by depth, deepest command depth, unknown depth class, fault position, key kind, env overlap class). Non-trivial = a command step at depth >= 2, or an unknown step below the top level, or a fired signer fault.",
+		Rule:       "Uploader's signing stage. Each run: a step tree mixing command/wait/input/trigger/group/unknown steps, groups nested to depth 4, 0-2 unknown steps wherever the Author's kind choice puts them (any position, any depth), pipeline env x step env overlaps, all key kinds; the real SignSteps runs with every map range in sched-tape order. Fault (S5): on the crypto.Signer path the signer returns an error on its k-th call, k sched-tape-chosen over the whole tree. One run in four an earlier, different WithEnv option precedes the real one: it must be neither signed nor written to. Oracle: unknown step anywhere => error; injected signer error => error; on nil error every command step at every depth carries a signature that verifies, names the key's algorithm, and whose signed_fields is exactly sort(5 mandatory + env::N for every pipeline env N not in the step's env); in all cases a deep dump (go-spew, unexported fields included) of the tree with signatures blanked and of the caller's env map is identical before and after. Fingerprint = (tree shape: kinds by depth, deepest command depth, unknown depth class, fault position, key kind, env overlap class). Non-trivial = a command step at depth >= 2, or an unknown step below the top level, or a fired signer fault.",
 		Real:       []string{"pipeline.Parse", "signature.SignSteps", "signature.Sign", "CommandStepWithInvariants.SignedFields", "signature.Verify", "jwx"},
 		Stub:       []string{"Author", "failing crypto.Signer wrapper (S5)", "map iteration scheduler (zzverifsim)", "go-spew deep dump as observer"},
 		Assume:     []string{"a signing failure on a fault-free tree without unknown steps is not what C06 states (C02 would fail instead): counted as a probe", "which steps are 'of unknown kind' is read from the parsed tree (*pipeline.UnknownStep)"},
